@@ -1072,6 +1072,17 @@ def cond_facts(facts, body, bb):
             else:
                 for f in bool_facts(cond, truth):
                     out.append((tb, lab, f))
+                # a bool-returning helper of the crate (e.g. a condition extracted into a private fn): what its result
+                # means is read off its body - the facts of its return expression hold on this edge as well
+                inl = _inline_bool_helper(facts, c0)
+                if inl is not None:
+                    i0 = strip(inl)
+                    if i0[0] == 'phi':
+                        alts = bool_dnf(i0, truth)
+                        out.append((tb, lab, ('dnf', tuple(tuple(a) for a in alts), i0, truth)))
+                    else:
+                        for f in bool_facts(inl, truth):
+                            out.append((tb, lab, f))
         return out
     # discriminant switch
     c = strip(cond)
@@ -1108,6 +1119,26 @@ STD_DISCR = {
     'std::result::Result': {0: 'Ok', 1: 'Err'},
     'std::ops::ControlFlow': {0: 'Continue', 1: 'Break'},
 }
+
+
+def _inline_bool_helper(facts, node, depth=0):
+    """return expression of a small, read-only, bool-returning crate function with the caller's arguments substituted"""
+    if node[0] != 'call' or depth > 1:
+        return None
+    cb = facts.bodies.get(node[1])
+    if cb is None or cb.kind not in ('method', 'fn') or len(cb.blocks) > 80 or not (cb.file or '').startswith('src/'):
+        return None
+    if cb.locals[0]['ty'] != 'bool':
+        return None
+    if any(l['ty'].startswith('&mut') for l in cb.locals[1:cb.nargs + 1]):
+        return None
+    try:
+        from .wirelib import ret_origin, subst
+        r = simplify(ret_origin(facts, cb))
+        argmap = {i + 1: a for i, a in enumerate(node[2])}
+        return subst(r, argmap)
+    except Exception:
+        return None
 
 
 def _adt_of_discr(facts, body, op):
@@ -1361,11 +1392,85 @@ def guard_edges(facts, body, pred):
                         ok = pred(('bool', fact[2], fact[3]))
                 else:
                     ok = pred(fact)
+                    if not ok and fact[0] == 'bool':
+                        ok = _holds_via_helper(facts, fact, pred)
             except Exception:
                 ok = False
             if ok:
                 out.append((bi, tb, lab))
     return out
+
+
+_HELPER_DEPTH = [0]
+
+
+def _holds_via_helper(facts, fact, pred):
+    """fact = ('bool', call H(args), truth) with H a small read-only bool-returning function of the crate (typically a
+    condition that was extracted into a private helper): the guard `pred` holds on this edge when, inside H, every path
+    that returns `truth` passes an edge on which pred holds (H's facts are read with the caller's arguments substituted)."""
+    n = strip(fact[1])
+    if n[0] != 'call' or _HELPER_DEPTH[0] > 0:
+        return False
+    cb = facts.bodies.get(n[1])
+    if cb is None or cb.kind not in ('method', 'fn') or len(cb.blocks) > 80 or not (cb.file or '').startswith('src/'):
+        return False
+    if cb.locals[0]['ty'] != 'bool' or any(l['ty'].startswith('&mut') for l in cb.locals[1:cb.nargs + 1]):
+        return False
+    from .wirelib import subst
+    argmap = {i + 1: a for i, a in enumerate(n[2])}
+    want = fact[2]
+    # blocks in which the return place receives a value that can equal `want`
+    sites = []
+    for bi, bl in enumerate(cb.blocks):
+        if bl['cl']:
+            continue
+        for s in bl['s']:
+            if s[0] == 'a' and s[1] == [0, []]:
+                rv = s[2]
+                if rv[0] == 'use' and rv[1][0] == 'k' and isinstance(rv[1][2], bool):
+                    if rv[1][2] == want:
+                        sites.append(bi)
+                else:
+                    sites.append(bi)
+        if bl['t'][0] == 'call' and bl['t'][3] == [0, []]:
+            # `a && g(x)`: the last conjunct is returned directly; on the path to it all earlier conjuncts held, and
+            # its own value equals the result
+            sites.append(('callret', bi))
+    if not sites:
+        return False
+
+    def sub_fact(f):
+        if f[0] == 'rel':
+            return ('rel', f[1], subst(f[2], argmap), subst(f[3], argmap)) + tuple(f[4:])
+        if f[0] == 'bool':
+            return ('bool', subst(f[1], argmap), f[2])
+        if f[0] in ('is', 'isnot'):
+            return (f[0], subst(f[1], argmap)) + tuple(f[2:])
+        return f
+
+    def p2(f):
+        return pred(sub_fact(f))
+    _HELPER_DEPTH[0] += 1
+    try:
+        ge = guard_edges(facts, cb, p2)
+    finally:
+        _HELPER_DEPTH[0] -= 1
+    cut = set(ge)
+    seen = cb.reachable(cut_edges=cut)
+    for st in sites:
+        if isinstance(st, tuple):
+            bi = st[1]
+            if bi not in seen:
+                continue
+            # the directly returned call: does pred hold for `call == want` itself?
+            t = cb.blocks[bi]['t']
+            node = facts.origin.call_node(cb, t, bi, 0, None) if hasattr(facts.origin, 'call_node') else None
+            if node is not None and pred(('bool', subst(node, argmap), want)):
+                continue
+            return False
+        if st in seen:
+            return False
+    return True
 
 
 def must_pass(body, sites, edges, start=0):
